@@ -1,0 +1,52 @@
+// SPDX-FileCopyrightText: 2026 The Pion community <https://pion.ly>
+// SPDX-License-Identifier: MIT
+
+//go:build verif && !js
+
+package webrtc
+
+import "time"
+
+// VerifOpsProbe reports the PeerConnection's operations queue as it stands (verification hook, C04):
+// the number of operations still queued and whether a worker goroutine exists (it is then running an
+// operation, or about to pop one, or about to exit).
+func VerifOpsProbe(pc *PeerConnection) (queued int, busy bool) {
+	pc.ops.mu.Lock()
+	defer pc.ops.mu.Unlock()
+
+	return pc.ops.ops.Len(), pc.ops.busyCh != nil
+}
+
+// VerifOpsIdle waits until the operations queue of pc is empty and no worker is left, or until the
+// timeout expires; it reports whether the queue drained (verification hook, C04).
+func VerifOpsIdle(pc *PeerConnection, timeout time.Duration) bool {
+	deadline := time.Now().Add(timeout)
+	for {
+		queued, busy := VerifOpsProbe(pc)
+		if queued == 0 && !busy {
+			return true
+		}
+		if time.Now().After(deadline) {
+			return false
+		}
+		time.Sleep(200 * time.Microsecond)
+	}
+}
+
+// VerifNegotiationFlags returns [[NegotiationNeeded]] and [[UpdateNegotiationNeededFlagOnEmptyChain]]
+// (verification hook, C04).
+func VerifNegotiationFlags(pc *PeerConnection) (isNegotiationNeeded, updateOnEmptyChain bool) {
+	return pc.isNegotiationNeeded.Load(), pc.updateNegotiationNeededFlagOnEmptyChain.Load()
+}
+
+// VerifCheckNegotiationNeeded evaluates checkNegotiationNeeded on pc as it stands (verification hook, C04).
+func VerifCheckNegotiationNeeded(pc *PeerConnection) bool {
+	return pc.checkNegotiationNeeded()
+}
+
+// VerifSCTPStartEntered reports whether SCTPTransport.Start has been entered on pc (the unsynchronised
+// isStarted flag: the harness only polls it to tell a worker blocked in the SCTP handshake from a busy one;
+// verification hook, C04).
+func VerifSCTPStartEntered(pc *PeerConnection) bool {
+	return pc.sctpTransport.isStarted
+}
